@@ -38,6 +38,25 @@ func snapPool(e *sim.Env, inv string, cm *chain.Manager) poolSnap {
 		buf.Write(gen.Enc(t))
 	}
 	p.hash = fmt.Sprintf("%x", types.HashBytes(buf.Bytes()))
+	// listing and lookup agree: what the pool reports, it also finds by id
+	for i := range p.v1 {
+		id := p.v1[i].ID()
+		var got types.Transaction
+		var ok bool
+		e.Guard(inv+".panic", "PoolTransaction", func() { got, ok = cm.PoolTransaction(id) })
+		if !ok || got.ID() != id {
+			e.Violationf(inv+".lookup-agrees-with-listing", "v1", "PoolTransactions lists transaction %v (position %d of %d) but PoolTransaction(id) returns ok=%v id=%v", id, i, len(p.v1), ok, got.ID())
+		}
+	}
+	for i := range p.v2 {
+		id := p.v2[i].ID()
+		var got types.V2Transaction
+		var ok bool
+		e.Guard(inv+".panic", "V2PoolTransaction", func() { got, ok = cm.V2PoolTransaction(id) })
+		if !ok || got.ID() != id {
+			e.Violationf(inv+".lookup-agrees-with-listing", "v2", "V2PoolTransactions lists transaction %v (position %d of %d) but V2PoolTransaction(id) returns ok=%v id=%v", id, i, len(p.v2), ok, got.ID())
+		}
+	}
 	return p
 }
 
@@ -256,6 +275,52 @@ func runC14(e *sim.Env) {
 				scribbleV2([]types.V2Transaction{t2})
 			}
 		}
+		// the query the syncer uses to complete block outlines: the
+		// transactions whose Merkle leaf hashes are asked for, as copies
+		if len(ids) > len(unknownIDs) {
+			var hashes []types.Hash256
+			want := map[types.TransactionID]bool{}
+			for i := range p.v1 {
+				if e.Chance(1, 2) {
+					hashes = append(hashes, p.v1[i].MerkleLeafHash())
+					want[p.v1[i].ID()] = true
+				}
+			}
+			for i := range p.v2 {
+				if e.Chance(1, 2) {
+					hashes = append(hashes, p.v2[i].MerkleLeafHash())
+					want[p.v2[i].ID()] = true
+				}
+			}
+			hashes = append(hashes, types.Hash256{0xEE})
+			var g1 []types.Transaction
+			var g2 []types.V2Transaction
+			e.Guard("C14.lookup-panic", "TransactionsForPartialBlock", func() { g1, g2 = s.cm.TransactionsForPartialBlock(hashes) })
+			got := map[types.TransactionID]bool{}
+			for _, t := range g1 {
+				got[t.ID()] = true
+			}
+			for _, t := range g2 {
+				got[t.ID()] = true
+			}
+			for id := range want {
+				if !got[id] {
+					e.Violationf("C14.lookup", "partial-block-missing", "%s: TransactionsForPartialBlock did not return pooled transaction %v whose leaf hash was asked for", label, id)
+				}
+			}
+			for id := range got {
+				if !want[id] {
+					e.Violationf("C14.lookup", "partial-block-extra", "%s: TransactionsForPartialBlock returned transaction %v which was not asked for", label, id)
+				}
+			}
+			scribbleV2(g2)
+			// (only v2 values are promised to be deep copies; v1 transactions are
+			// shared by design and left alone)
+			for i, j := 0, len(g1)-1; i < j; i, j = i+1, j-1 {
+				g1[i], g1[j] = g1[j], g1[i]
+			}
+			e.Probe("partial_block_query")
+		}
 		// mutate / reorder the returned lists
 		for i, j := 0, len(p.v1)-1; i < j; i, j = i+1, j-1 {
 			p.v1[i], p.v1[j] = p.v1[j], p.v1[i]
@@ -319,6 +384,21 @@ func runC14(e *sim.Env) {
 				e.Probe("set_with_pooled_parents")
 			}
 			set2 = append(parents, fresh2...)
+			if mode == 1 && len(before.v2) > 0 && len(fresh2) > 0 && e.Chance(1, 2) {
+				// known transactions need not come first: an already pooled
+				// transaction (with its pooled ancestors) after the fresh ones
+				j := e.Intn(len(before.v2))
+				have := map[types.TransactionID]bool{}
+				for _, t := range set2 {
+					have[t.ID()] = true
+				}
+				for _, t := range poolSubsetV2(before.v2, func(i int) bool { return i == j }, nil) {
+					if !have[t.ID()] {
+						set2 = append(set2, t)
+						e.Probes["set_with_known_after_fresh"] = 1
+					}
+				}
+			}
 			switch mode {
 			case 2:
 				if len(before.v2) > 0 {
@@ -506,7 +586,7 @@ func kindOr(k string) string {
 func init() {
 	register(&Prop{
 		ID: "C14", Run: runC14, Quick: 1200, Thorough: 30000, Level: "exploration",
-		Rule:        "one run = drawn network and chain, then 6-24 pool submissions (v1 or v2 sets of 1-4 possibly dependent transactions: fresh / partly known / conflicting with the pool at a drawn position / invalid at a drawn position / all known) with lookups of every pooled v1 id, v2 id and unknown ids on both lookup functions, mutation and reordering of returned values and of the caller's own transactions after each call, and an occasional block assembled from the pool; distinct = abstract trace of (mode, version, error, known); non-trivial = at least one non-fresh set",
+		Rule:        "one run = drawn network and chain, then 6-24 pool submissions (v1 or v2 sets of 1-4 possibly dependent transactions: fresh / partly known / conflicting with the pool at a drawn position / invalid at a drawn position / all known) with lookups of every pooled v1 id, v2 id and unknown ids on both lookup functions, TransactionsForPartialBlock for a drawn subset of leaf hashes, agreement of listing and lookup, mutation and reordering of returned values and of the caller's own transactions after each call, and an occasional block assembled from the pool; distinct = abstract trace of (mode, version, error, known); non-trivial = at least one non-fresh set",
 		Real:        []string{"chain.Manager (pool)", "chain.DBStore"},
 		Stub:        []string{"disk: simdisk.DB"},
 		Assumptions: []string{"pool contents are observed through PoolTransactions / V2PoolTransactions before and after each call"},
